@@ -20,6 +20,9 @@ func editingHandler(col *Collector, r *RNG, tier string) {
 	o := histOpts{maxUnits: 7, maxStmts: 2, maxRows: 2, maxCols: 5, maxTables: 2, files: true, ignorable: true}
 	for i := 0; i < n; i++ {
 		h := genHistory(r, o, allCfgs[i%len(allCfgs)])
+		if i == 0 {
+			h = bulkHistory(r, allCfgs[r.Intn(len(allCfgs))], 17000) // a bulk-load transaction of 17000 rows events
+		}
 		line := h.line(posStr(h.startFile(), 4))
 		ans, err := theDriver.Ask(line)
 		if err != nil || strings.HasPrefix(ans, "bad-") {
@@ -37,6 +40,9 @@ func editingHandler(col *Collector, r *RNG, tier string) {
 		close(ch)
 		var calls []string
 		mode := i % 3
+		if i == 0 {
+			mode = 3 // (the bulk load with a read-only handler)
+		}
 		res := catch(func() string {
 			pos, err := s.VerifParseEvents(context.Background(), ch, func(t *gobinlog.Transaction) error {
 				calls = append(calls, showTx(t))
@@ -45,7 +51,7 @@ func editingHandler(col *Collector, r *RNG, tier string) {
 					t.NextPosition = gobinlog.Position{Filename: "checkpoint-format", Offset: 1}
 				case 1:
 					*t = gobinlog.Transaction{}
-				default:
+				case 2:
 					t.NowPosition, t.NextPosition = t.NextPosition, t.NowPosition
 					t.Events = nil
 				}
